@@ -28,7 +28,7 @@ let addrs = [| "hub"; "reward"; "disp"; "reg"; "bsei"; "stsei"; "swap"; "oracle"
                "owner"; "updater"; "keeper"; "nobody";
                "user0"; "user1"; "user2"; "user3"; "user4"; "user5"; "user6"; "user7" |]
 let denoms = [| "uAtom"; "ujunk"; "usei"; "uusd" |]
-let nvals = 8
+let nvals = 12  (* = length Types.VALS: the validators of the chain *)
 
 let index_of arr s =
   let r = ref (-1) in
@@ -44,14 +44,23 @@ let denom_tbl = Array.mapi (fun i _ -> n_of_int i) denoms
 let denom_of s = denom_tbl.(index_of denoms s)
 let dname d = let i = int_of_n d in if i >= 0 && i < 4 then denoms.(i) else "?d" ^ string_of_int i
 let val_tbl = Array.init nvals n_of_int
-(* val0..val7 exist on the chain; val8/val9 may appear inside contract messages (not on chain) *)
-let val_all = Array.init 10 n_of_int
+(* A validator name is "val" + one character c of val_alphabet; its model id is the index of c.
+   The alphabet is in ascending byte order, so the order of the ids is the byte order of the names
+   (the order in which the contracts' storage maps iterate).  val0..val9, vala, valb (ids 0..11 =
+   Types.VALS) exist on the chain; later names (valx, valy in generated histories) may appear inside
+   contract messages only: "validator not on chain". *)
+let val_alphabet = "0123456789abcdefghijklmnopqrstuvwxyz"
+let val_all = Array.init (String.length val_alphabet) n_of_int
 let val_of s =
   if String.length s = 4 && String.sub s 0 3 = "val" then
-    let k = Char.code s.[3] - 48 in
-    if k >= 0 && k < 10 then val_all.(k) else failwith ("bad validator " ^ s)
+    match String.index_opt val_alphabet s.[3] with
+    | Some k -> val_all.(k)
+    | None -> failwith ("bad validator " ^ s)
   else failwith ("bad validator " ^ s)
-let vname v = "val" ^ string_of_int (int_of_n v)
+let vname v =
+  let i = int_of_n v in
+  if i >= 0 && i < String.length val_alphabet then "val" ^ String.make 1 val_alphabet.[i]
+  else "?v" ^ string_of_int i
 
 let opt f s = if s = "-" then None else Some (f s)
 let name_opt = function None -> "-" | Some a -> name_of a
